@@ -60,7 +60,8 @@ def run(ck):
             seen.add(tuple(h))
             longs.append({"h": h, "twin": [c for c in h if c <= 5]})
     n = 700 if quick else len(hists)
-    picked = [h for h in hists if len(h["h"]) <= 2] + ck.rng.sample([h for h in hists if len(h["h"]) == 3], min(n, len(hists)))
+    len3 = [h for h in hists if len(h["h"]) == 3]
+    picked = [h for h in hists if len(h["h"]) <= 2] + ck.rng.sample(len3, min(n, len(len3)))
     picked += longs[: (150 if quick else 1500)]
     evs = []
     for k, hc in enumerate(picked):
